@@ -511,7 +511,8 @@ fn oracles(ctx: &mut Ctx, case_id: &str, li: usize, f: &Flw, h: &Hist, at_sync_p
         }
     }
     // --- size rule (C08): rotation exactly when the current file already exceeds N
-    if let (Some(n), None) = (rot.max_size, rot.age) {
+    let age_inactive = rot.age.map_or(true, |a| h.recs.windows(2).all(|w| age_trunc(a, w[0].1) == age_trunc(a, w[1].1)));
+    if let (Some(n), true) = (rot.max_size, age_inactive) {
         if !h.forced {
             let mut cur = 0u64;
             let mut fi = 0usize;
@@ -1037,7 +1038,10 @@ fn execute_inner(ctx: &mut Ctx, lines: &[String]) -> Vec<String> {
                 oracles(ctx, &case_id, li, &f, &h, !h.unflushed);
                 hex(&all)
             }
-            ["PARTS"] => f.reading_order().iter().map(|n| read_file(&dir.join(n)).len().to_string()).collect::<Vec<_>>().join(","),
+            ["PARTS"] => {
+                let v = f.reading_order().iter().map(|n| read_file(&dir.join(n)).len().to_string()).collect::<Vec<_>>();
+                if v.is_empty() { "-".into() } else { v.join(",") }
+            }
             ["LINK"] => match std::fs::read_link(dir.join("current.link")) {
                 Ok(p) => hexs(&p.file_name().unwrap().to_string_lossy()),
                 Err(_) => "-".into(),
